@@ -47,10 +47,13 @@ def build(spec, objs, root=False):
     kids = [build(k, objs) for k in spec["kids"]]
     cat = model.MultiLanguageTextType({"en": f"d{spec['pay']}"})
     key = spec["key"]
+    sem = None
+    if spec.get("sem") is not None:
+        sem = model.ExternalReference((model.Key(model.KeyTypes.GLOBAL_REFERENCE, f"urn:sem:{spec['sem']}"),))
     if cls == 9:
         o = model.Submodel("urn:c12:sm", kids, id_short=key, description=cat, qualifier=quals, extension=exts)
     elif cls == 0:
-        o = model.Property(key, model.datatypes.Int, spec["pay"], qualifier=quals, extension=exts)
+        o = model.Property(key, model.datatypes.Int, spec["pay"], qualifier=quals, extension=exts, semantic_id=sem)
     elif cls == 1:
         o = model.SubmodelElementCollection(key, kids, description=cat, qualifier=quals, extension=exts)
     elif cls == 2:
@@ -142,6 +145,11 @@ def check_equal(o, spec, path, bad, root=True, in_list=False):
         return
     if not in_list and o.id_short != spec["key"]:
         bad.append(("attr", f"{path}: id_short {o.id_short!r} != {spec['key']!r}"))
+    want_sem = spec.get("sem")
+    got_sem = getattr(o, "semantic_id", None)
+    got_sem = None if got_sem is None else int(got_sem.key[0].value.rsplit(":", 1)[1])
+    if got_sem != want_sem:
+        bad.append(("attr", f"{path}: semantic_id {got_sem} != {want_sem}"))
     if payload(o) != spec["pay"]:
         bad.append(("attr", f"{path}: value/description {payload(o)} != {spec['pay']}"))
     if not root and src_code(o) != spec["src"]:
@@ -236,7 +244,9 @@ def run_sdk(case):
     try:
         live.update_from(new, update_source=bool(case["us"]))
     except Exception as e:
-        bad.append(("raised", f"update_from raised {type(e).__name__}: {e}"))
+        cid = getattr(e, "constraint_id", None)
+        bad.append(("raised-" + type(e).__name__ + (f"-{cid}" if cid is not None else ""),
+                    f"update_from raised {type(e).__name__}: {e}"))
         return None, bad
     check_equal(live, case["new"], "", bad)
     check_identity(live, case["live"], case["new"], objs, "", bad)
@@ -300,8 +310,11 @@ class Gen:
             for k in keys:
                 n["kids"].append(self.node(depth + 1, k, slot=r.randrange(3) if cls == 4 else None))
         elif cls == 3:
+            sem = r.choice([None, 0, 1])
             for _ in range(r.choice([0, 1, 2, 3])):
-                n["kids"].append(self.node(depth + 1, None, cls=0))
+                k = self.node(depth + 1, None, cls=0)
+                k["sem"] = sem
+                n["kids"].append(k)
         return n
 
     def edit(self, n, depth=0):
@@ -328,6 +341,9 @@ class Gen:
                 m["kids"].append(self.edit(k, depth + 1))
             for _ in range(r.choice([0, 0, 1])):
                 m["kids"].append(self.node(depth + 1, None, cls=0))
+            sem = r.choice([None, 0, 1]) if r.random() < 0.5 else (n["kids"][0].get("sem") if n["kids"] else None)
+            for k in m["kids"]:
+                k["sem"] = sem
             return m
         for k in n["kids"]:
             x = r.random()
